@@ -219,6 +219,9 @@ func checkRel(c relCase) (o pbt.Outcome, err error) {
 	if !clean {
 		o.Class("has-ill-conditioned-pair")
 	}
+	if refdist.HasLower(c.Rows) {
+		o.Class("lower-case residues")
+	}
 
 	// transformed alignment: rows built directly, or through the goalign API
 	transformed := func(cols []int, revcomp bool) ([]string, error) {
@@ -496,6 +499,9 @@ type faultCase struct {
 	InDistance bool            `json:"in_distance"` // the failing method: Distance or Sequence
 	Persist    bool            `json:"persist"`     // every call from the k-th on fails
 	Together   bool            `json:"together"`    // with Persist and Distance: the failing calls wait until every worker holds one, the workers report at the same time
+	// Ks: the call indices to fail at (negative: counted from the last call, -1 = the last one); empty =
+	// every k in 1..#calls+1
+	Ks []int `json:"ks"`
 	// K and Threads are filled while the case runs (the side file then names the hanging call)
 	K         int `json:"k"`
 	Threads   int `json:"threads"`
@@ -561,6 +567,17 @@ func checkFaultIn(test string) func(c faultCase) (pbt.Outcome, error) {
 		ks := []int{}
 		if c.K > 0 { // a replayed case names its k and thread count
 			ks = []int{c.K}
+		} else if len(c.Ks) > 0 {
+			seen := map[int]bool{}
+			for _, k := range c.Ks {
+				if k < 0 {
+					k = calls + 1 + k
+				}
+				if k >= 1 && k <= calls+1 && !seen[k] {
+					seen[k] = true
+					ks = append(ks, k)
+				}
+			}
 		} else {
 			for k := 1; k <= calls+1; k++ { // calls+1: never reached, the run must succeed
 				ks = append(ks, k)
@@ -629,11 +646,33 @@ func bucket(n int) int {
 		return 3
 	case n <= 10:
 		return 10
+	case n <= 28:
+		return 28
+	case n <= 100:
+		return 100
 	}
-	return 28
+	return 1000
 }
 
 func TestFault(t *testing.T) { pbt.Run(t, genFault, checkFaultIn("TestFault")) }
+
+// TestFaultLarge: 16-40 sequences, i.e. 120-780 pairs - more than the 100 pairs the channel between the
+// producer and the workers holds - with the failure at an early call, around the 100th, somewhere, and
+// at the last ones; 1, 2, 4 and 16 threads; single, persistent and simultaneous failures
+func TestFaultLarge(t *testing.T) {
+	pbt.Run(t, func(t *rapid.T) faultCase {
+		var c faultCase
+		c.Rows, _ = refdist.GenRows(t, 16, 40, 6, -1)
+		c.Opt = refdist.GenOptions(t, len(c.Rows), len(c.Rows[0]), false, true)
+		c.InDistance = rapid.IntRange(0, 3).Draw(t, "in-distance") != 0
+		c.Persist = rapid.Bool().Draw(t, "persist")
+		c.Together = rapid.Bool().Draw(t, "together")
+		n := len(c.Rows)
+		c.Ks = []int{1, rapid.IntRange(2, 12).Draw(t, "early"), rapid.IntRange(95, 106).Draw(t, "around-100"),
+			rapid.IntRange(1, n*(n-1)/2).Draw(t, "anywhere"), -3, -2, -1}
+		return c
+	}, checkFaultIn("TestFaultLarge"))
+}
 
 // ---- the same under the race detector (registered with Race: true) -------------------------------------
 
@@ -667,6 +706,10 @@ type cliCase struct {
 	Rows []string        `json:"rows"`
 	Opt  refdist.Options `json:"opt"`
 	Tier int             `json:"tier"`
+	// Second: another alignment with its own number of rows, in the same phylip file (before or after
+	// Rows); the ranges then have minima inside the smaller one and maxima possibly beyond it
+	Second      []string `json:"second"`
+	SecondFirst bool     `json:"second_first"`
 }
 
 func TestCLI(t *testing.T) {
@@ -681,14 +724,44 @@ func TestCLI(t *testing.T) {
 		if !c.Opt.Gamma {
 			c.Opt.Alpha = 0
 		}
+		if rapid.IntRange(0, 2).Draw(t, "two-alignments") == 0 {
+			c.Second, _ = refdist.GenRows(t, 2, 12, 30, c.Tier)
+			c.SecondFirst = rapid.Bool().Draw(t, "second-first")
+			if c.Opt.Ranges != nil || rapid.Bool().Draw(t, "ranges-over-both") {
+				small, large := len(c.Second), len(c.Rows)
+				if small > large {
+					small, large = large, small
+				}
+				a := rapid.IntRange(0, small-1).Draw(t, "r1min")
+				b := rapid.IntRange(a, large+1).Draw(t, "r1max")
+				cc := rapid.IntRange(0, small-1).Draw(t, "r2min")
+				d := rapid.IntRange(cc, large+1).Draw(t, "r2max")
+				c.Opt.Ranges = []int{a, b, cc, d}
+			}
+		}
 		return c
 	}, func(c cliCase) (o pbt.Outcome, err error) {
-		ali := distrun.Ali(c.Rows)
-		in := cli.TempFile(dir, ".fa", cli.Fasta(ali.Rows))
+		inputs := [][]string{c.Rows}
+		var in string
+		extra := []string{}
+		if c.Second == nil {
+			in = cli.TempFile(dir, ".fa", cli.Fasta(distrun.Ali(c.Rows).Rows))
+		} else {
+			inputs = [][]string{c.Rows, c.Second}
+			if c.SecondFirst {
+				inputs = [][]string{c.Second, c.Rows}
+			}
+			text := ""
+			for _, rows := range inputs {
+				text += phylipText(gen.SimpleNames(len(rows)), rows)
+			}
+			in = cli.TempFile(dir, ".phy", text)
+			extra = []string{"-p"}
+		}
 		defer os.Remove(in)
 		var first string
 		for k, th := range threadCounts {
-			args := distrun.Args(c.Opt, in, th)
+			args := append(distrun.Args(c.Opt, in, th), extra...)
 			r := cli.Run("", args...)
 			if r.TimedOut {
 				return o, fmt.Errorf("goalign %v did not finish", args)
@@ -704,22 +777,33 @@ func TestCLI(t *testing.T) {
 				return o, fmt.Errorf("goalign %v prints other bytes than with -t %d:\n%s\nagainst\n%s", args, threadCounts[0], r.Stdout, first)
 			}
 		}
-		// and the printed matrix is the one of the estimators (same oracle as C07, 1e-9)
-		_, got, perr := distrun.ParseMatrix(first)
-		if perr != nil {
-			return o, fmt.Errorf("unreadable matrix: %v\n%s", perr, first)
+		// and every printed matrix is the one of the estimators for its own alignment, the ranges clipped
+		// to it (same oracle as C07, 1e-9)
+		_, mats, perr := distrun.ParseMatrices(first)
+		if perr != nil || len(mats) != len(inputs) {
+			return o, fmt.Errorf("%d alignments in the input but the output is not as many matrices (%v)\n%s", len(inputs), perr, first)
 		}
-		readings := refdist.Readings(c.Rows, c.Opt)
-		v, _, err := refdist.JudgeAny(got, c.Rows, c.Opt, readings, refdist.JudgeOpt{Tol: refdist.CLITol})
-		if err != nil {
-			return o, fmt.Errorf("goalign %v\n%v", distrun.Args(c.Opt, in, 1), err)
+		for k, rows := range inputs {
+			v, _, err := refdist.JudgeAny(mats[k], rows, c.Opt, refdist.Readings(rows, c.Opt), refdist.JudgeOpt{Tol: refdist.CLITol})
+			if err != nil {
+				return o, fmt.Errorf("goalign %v, alignment %d of %d\n%v", append(distrun.Args(c.Opt, in, 1), extra...), k+1, len(inputs), err)
+			}
+			o.Ill += v.Ill
+			o.Ambiguous += v.Ambiguous
+			o.NonTrivial = o.NonTrivial || len(rows) >= 3 && hasFiniteNonZero(mats[k])
 		}
-		o.Ill += v.Ill
-		o.Ambiguous += v.Ambiguous
-		o.NonTrivial = len(c.Rows) >= 3 && hasFiniteNonZero(got)
 		o.Class("model=%s", c.Opt.Model)
 		if len(c.Rows) > 12 {
 			o.Class("rows>12")
+		}
+		if c.Second != nil {
+			o.Class("two alignments of different sizes in one file")
+			if c.Opt.Ranges != nil {
+				o.Class("two alignments + ranges over both")
+			}
+		}
+		if refdist.HasLower(c.Rows) {
+			o.Class("lower-case residues")
 		}
 		return o, nil
 	})
